@@ -201,6 +201,16 @@ func (x *Exec) writeReplay(prop string, o *Obligation, work string, timeout int)
 	fmt.Fprintf(&sb, "// Replay artefact for obligation %s (property %s)\n", o.Name, prop)
 	fmt.Fprintf(&sb, "// at %s\n// clause: %s\n// status: %s (%s)\n", x.P.posStr(o.Pos), o.Text, o.Status, o.Solver)
 	confirmed := false
+	if o.Status == "failed" {
+		if m := x.scalarModel(o, work, 20); m != nil {
+			sb.WriteString("// counterexample (scalar symbols of the solver's model; p_ = parameter, loop_ = loop variable at an arbitrary iteration, ghost_ = ghost state):\n")
+			for _, k := range sortedKeys(m) {
+				if strings.HasPrefix(k, "p_") || strings.HasPrefix(k, "loop_") || strings.HasPrefix(k, "ghost_") || strings.HasPrefix(k, "ret_") || strings.HasPrefix(k, "hv_") {
+					fmt.Fprintf(&sb, "//   %s = %s\n", k, m[k])
+				}
+			}
+		}
+	}
 	if o.Status == "failed" && !*flagNoReplay {
 		test, ok := x.buildReplay(prop, o, work, timeout)
 		if test != "" {
